@@ -95,8 +95,12 @@ fn events<F: Fn(u8, u8) -> u32 + Clone>(log: &mut Log, mut u: Ukkonen<F>, qs: &[
 }
 
 fn run_one(log: &mut Log, tag: &str, cap: usize, cost: &[Vec<u32>], qs: &[Q]) {
-    let values = tag == "ct"; // the cost-table class treats the object as a value
-    let cj = Value::Array(cost.iter().map(|r| Value::Array(r.iter().map(|&x| json!(x)).collect())).collect());
+    let values = tag == "ct" || tag == "inf"; // these classes treat the object as a value
+    // entries >= 2^30 ("forbidden": u32::MAX, u32::MAX - 1, 2^31, 2^31 - 1) are logged as -1 = infinite
+    let cj = Value::Array(cost.iter().map(|r| Value::Array(r.iter().map(|&x| if x >= (1u32 << 30) { json!(-1) } else { json!(x) }).collect())).collect());
+    if cost.iter().any(|r| r.iter().any(|&x| x >= (1u32 << 30))) {
+        log.oblige("cost_entries_near_u32_max");
+    }
     if !log.begin(tag, json!({"cap": cap, "cost": cj})) {
         return;
     }
@@ -236,6 +240,46 @@ pub fn drive(log: &mut Log) {
         log.oblige("reuse_mixed_lengths");
         log.oblige("k_ge_m");
         run_one(log, "ct", 1 + rng.below(8) as usize, &cost, &qs);
+    }
+
+    // (b2) "forbidden" edges: cost entries u32::MAX, u32::MAX - 1, 2^31, 2^31 - 1 off the diagonal
+    //      (substitutions forbidden: only insertions / deletions) and on the diagonal of single
+    //      symbols (a symbol that never matches itself), mixed with 0 / 1 / 2; every k up to m + 2
+    let huge = [u32::MAX, u32::MAX - 1, 1u32 << 31, (1u32 << 31) - 1];
+    let n = log.opts.n(24, 160);
+    for i in 0..n {
+        case += 1;
+        if !log.mine(case) {
+            continue;
+        }
+        let mut rng = Rng::new(seed, 24, case);
+        let sigma = 2 + (i % 3) as usize;
+        let alpha: Vec<u8> = (0..sigma as u8).collect();
+        let h = huge[(i % 4) as usize];
+        let cost: Vec<Vec<u32>> = (0..sigma)
+            .map(|a| {
+                (0..sigma)
+                    .map(|b| match i % 3 {
+                        0 => if a == b { 0 } else { h },                                  // substitutions forbidden
+                        1 => if a == b { if a == 0 { h } else { 0 } } else { 1 },         // symbol 0 never matches itself
+                        _ => if rng.below(3) == 0 { *rng.pick(&huge) } else { rng.below(3) as u32 },
+                    })
+                    .collect()
+            })
+            .collect();
+        let mut qs = vec![];
+        for _ in 0..3 {
+            let m = 2 + rng.below(9) as usize;
+            let p = rng.seq(m, &alpha);
+            let nt = m + 6 + rng.below(20) as usize;
+            let t = planted(&mut rng, &p, nt, &alpha, &alpha, 2);
+            for k in 0..=(m + 2) {
+                if k <= 3 || k + 3 >= m {
+                    qs.push(Q { p: p.clone(), t: t.clone(), k });
+                }
+            }
+        }
+        run_one(log, "inf", 2, &cost, &qs);
     }
 
     // (c) unit cost over DNA / all bytes, longer patterns and texts, capacity below |p|
